@@ -79,7 +79,7 @@ class Obligation:
 
 class Ctx:
     """State of one path."""
-    def __init__(self, prog, registry, decisions, work, quick_ms=300):
+    def __init__(self, prog, registry, decisions, work, quick_ms=300, callsites=None):
         self.prog = prog
         self.registry = registry
         self.decisions = list(decisions)
@@ -100,7 +100,21 @@ class Ctx:
         self.ax_done = set()
         self.ax_scanned = 0
         self.qhyps = []             # (QForall, guard or None)
+        self.qhyps2 = []            # QForall2
         self.qdone = set()
+        self.skolem_pairs = []
+        self.scanned = set()
+        self.reads = {}
+        self.reads2 = {}
+        self.keep = []
+        self.ninst = 0
+        self.inst_ids = set()
+        self.qsigs = set()
+        self.callsites = callsites if callsites is not None else {}
+        self.ax_pending = []
+        self.idx_terms = {}
+        self.pairs = {}
+        self.scan_pos = 0
         self.names = {}             # z3 const name -> (term) for model extraction
         self.depth = 0
 
@@ -182,7 +196,7 @@ class Ctx:
                                closed=True))
 
     def assume_spec(self, f):
-        if isinstance(f, (S.QForall, S.QGuard)):
+        if isinstance(f, (S.QForall, S.QGuard, S.QForall2)):
             return self.assume(f)
         if isinstance(f, bool):
             return self.assume(f)
@@ -201,11 +215,22 @@ class Ctx:
 
     # ---- path condition -------------------------------------------------------------------
     def assume(self, f):
+        if isinstance(f, S.QForall) and getattr(f, 'hyp_alt', None) is not None:
+            f = f.hyp_alt
+        if isinstance(f, (S.QForall, S.QGuard, S.QForall2)):
+            sig = qsig(f)
+            if sig is not None:
+                if sig in self.qsigs:
+                    return          # the same quantified fact is already a hypothesis
+                self.qsigs.add(sig)
         if isinstance(f, S.QForall):
             self.qhyps.append((f, None))
             return
         if isinstance(f, S.QGuard):
             self.qhyps.append((f.q, f.guard))
+            return
+        if isinstance(f, S.QForall2):
+            self.qhyps2.append(f)
             return
         if f is True or (z3.is_true(f) if isinstance(f, z3.ExprRef) else False):
             return
@@ -268,50 +293,193 @@ class Ctx:
     def apply_axioms(self, terms):
         """Instances of the assumed contracts of uninterpreted library functions (Find, ...) for
         every application occurring in the obligation or the path condition."""
-        apps = []
-        seen = set()
-        for f in list(terms) + self.pc[self.ax_scanned:]:
-            collect_apps(f, AXIOMS, apps, seen)
-        self.ax_scanned = len(self.pc)
-        for t in apps:
-            key = t.sexpr()
+        for f in terms:
+            self.scan(f, 0)
+        while self.scan_pos < len(self.pc):
+            self.scan(self.pc[self.scan_pos], 0)
+            self.scan_pos += 1
+        while self.ax_pending:
+            t = self.ax_pending.pop()
+            key = t.get_id()
             if key in self.ax_done:
                 continue
             self.ax_done.add(key)
             for ax in AXIOMS[t.decl().name()](t):
                 self.pc.append(ax)
                 self.solver.add(ax)
-        self.ax_scanned = len(self.pc)
+                self.scan(ax, 0)
+        self.scan_pos = len(self.pc)
 
-    def instantiate(self, goal_terms, rounds=2):
-        """Engine-side instantiation of quantified hypotheses (DESIGN.md 2.5): candidate terms are
-        skolem constants, indices of array reads / substr offsets in the obligation, and hints."""
-        for _ in range(rounds):
-            cands = []
+    # ---- engine-side instantiation of quantified hypotheses (DESIGN.md 2.5) ---------------------------
+    # E-matching on array reads: a hypothesis  forall k. ... A[k + c] ...  is instantiated with k := u - c
+    # for every read A[u] occurring in the obligation, the path condition or earlier instances.
+    # Hypotheses without an array trigger fall back to all index terms.  The solver only ever sees
+    # quantifier-free formulas; missing instances can only make an obligation undecided, never proved.
+    MAXGEN = 6
+    MAXINST = 6000
+
+    def scan(self, f, gen):
+        if not isinstance(f, z3.ExprRef):
+            return
+        stack = [f]
+        seen = self.scanned
+        while stack:
+            t = stack.pop()
+            tid = t.get_id()
+            if tid in seen:
+                continue
+            seen.add(tid)
+            if not z3.is_app(t):
+                continue
+            k = t.decl().kind()
+            n = t.num_args()
+            if k == z3.Z3_OP_SELECT:
+                a0 = t.arg(0)
+                if z3.is_app(a0) and a0.decl().kind() == z3.Z3_OP_SELECT:
+                    self.add_read2(a0.arg(0), a0.arg(1), t.arg(1), gen)         # cell[i][j]
+                elif not z3.is_array(t):
+                    self.add_read(a0, t.arg(1), gen)
+            elif k == z3.Z3_OP_UNINTERPRETED and n > 0 and t.decl().name() in AXIOMS:
+                self.ax_pending.append(t)
+            for i in range(n):
+                stack.append(t.arg(i))
+
+    def add_read(self, arr, u, gen):
+        u = z3.simplify(u)
+        lst = self.reads.setdefault(arr.get_id(), {})
+        k = u.sexpr()
+        if k not in lst:
+            lst[k] = (u, gen)
+            self.keep.append(arr)
+        self.add_idx(u, gen)
+        if z3.is_app(arr) and arr.decl().kind() == z3.Z3_OP_STORE:
+            self.add_read(arr.arg(0), u, gen)       # select-over-store: the read also reaches the base array
+
+    def add_read2(self, arr, i, j, gen):
+        i, j = z3.simplify(i), z3.simplify(j)
+        lst = self.reads2.setdefault(arr.get_id(), {})
+        k = (i.sexpr(), j.sexpr())
+        if k not in lst:
+            lst[k] = ((i, j), gen)
+            self.keep.append(arr)
+        self.add_pair(i, j, gen)
+
+    def add_idx(self, t, gen):
+        t = z3.simplify(t) if isinstance(t, z3.ExprRef) else z3.IntVal(t)
+        if t.sort() != z3.IntSort():
+            return
+        k = t.sexpr()
+        if k not in self.idx_terms:
+            self.idx_terms[k] = (t, gen)
+
+    def add_pair(self, i, j, gen):
+        i, j = z3.simplify(i), z3.simplify(j)
+        k = (i.sexpr(), j.sexpr())
+        if k not in self.pairs:
+            self.pairs[k] = ((i, j), gen)
+
+    def _add_instance(self, f, gen):
+        if isinstance(f, bool):
+            return
+        fid = f.get_id()
+        if fid in self.inst_ids:
+            return
+        self.inst_ids.add(fid)      # f stays alive in self.pc, so the id is not reused
+        self.ninst += 1
+        self.pc.append(f)
+        self.solver.add(f)
+        self.scan(f, gen)
+
+    def triggers1(self, q):
+        """[(array term, offset c)] such that the body reads array[k + c]; [] = no array trigger."""
+        tr = getattr(q, '_trig', None)
+        if tr is not None:
+            return tr
+        K, K2 = _K[0], _K[1]
+        tr = []
+        try:
+            body = q.instance(K)
+            while isinstance(body, S.QGuard):
+                inner = body.q.instance(K2)
+                body = z3.And(S._b(body.guard), S._b(inner.guard) if isinstance(inner, S.QGuard) else S._b(inner))
             seen = set()
+            for t in subterms(body):
+                if z3.is_app(t) and t.decl().kind() == z3.Z3_OP_SELECT and not z3.is_array(t):
+                    a0, idx = t.arg(0), t.arg(1)
+                    if z3.is_app(a0) and a0.decl().kind() == z3.Z3_OP_SELECT:
+                        continue
+                    if mentions(idx, K) and not mentions(a0, K) and not mentions(idx, K2):
+                        c = z3.simplify(idx - K)
+                        if not mentions(c, K):
+                            key = (a0.get_id(), c.sexpr())
+                            if key not in seen:
+                                seen.add(key)
+                                tr.append((a0, c))
+                                self.keep.append(a0)
+        except Exception:
+            tr = []
+        q._trig = tr
+        return tr
 
-            def add(t):
-                t = z3.simplify(t) if isinstance(t, z3.ExprRef) else z3.IntVal(t)
-                k = t.sexpr()
-                if k not in seen and t.sort() == z3.IntSort():
-                    seen.add(k)
-                    cands.append(t)
-            for g in goal_terms:
-                collect_index_terms(g, add)
-            for f in self.pc[-60:]:
-                collect_index_terms(f, add)
+    def triggers2(self, q):
+        tr = getattr(q, '_trig', None)
+        if tr is not None:
+            return tr
+        A, B = _K[2], _K[3]
+        tr = []
+        try:
+            body = q.fn(A, B)
+            seen = set()
+            for t in subterms(body):
+                if z3.is_app(t) and t.decl().kind() == z3.Z3_OP_SELECT:
+                    a0 = t.arg(0)
+                    if z3.is_app(a0) and a0.decl().kind() == z3.Z3_OP_SELECT:
+                        arr, i, j = a0.arg(0), a0.arg(1), t.arg(1)
+                        if mentions(i, A) and mentions(j, B) and not mentions(i, B) and not mentions(j, A) \
+                                and not mentions(arr, A):
+                            ci, cj = z3.simplify(i - A), z3.simplify(j - B)
+                            if not mentions(ci, A) and not mentions(cj, B):
+                                key = (arr.get_id(), ci.sexpr(), cj.sexpr())
+                                if key not in seen:
+                                    seen.add(key)
+                                    tr.append((arr, ci, cj))
+                                    self.keep.append(arr)
+        except Exception:
+            tr = []
+        q._trig = tr
+        return tr
+
+    def instantiate(self, goal_terms, rounds=None):
+        for g in goal_terms:
+            self.scan(g, 0)
+        while self.scan_pos < len(self.pc):
+            self.scan(self.pc[self.scan_pos], 0)
+            self.scan_pos += 1
+        for _ in range(self.MAXGEN + 2):
             new = 0
             i = 0
-            while i < len(self.qhyps):
+            while i < len(self.qhyps) and self.ninst < self.MAXINST:
                 q, guard = self.qhyps[i]
                 i += 1
                 for h in q.hints:
-                    add(h)
-                for t in list(cands):
-                    key = (id(q), t.sexpr())
-                    if key in self.qdone:
+                    self.add_idx(h, 0)
+                tr = self.triggers1(q)
+                cands = []
+                if tr:
+                    for (arr, c) in tr:
+                        for key, (u, gen) in list(self.reads.get(arr.get_id(), {}).items()):
+                            cands.append((z3.simplify(u - c), gen))
+                    for h in q.hints:
+                        cands.append((h if isinstance(h, z3.ExprRef) else z3.IntVal(h), 0))
+                else:
+                    cands = list(self.idx_terms.values())
+                for (t, gen) in cands:
+                    if gen > self.MAXGEN:
                         continue
-                    self.qdone.add(key)
+                    dk = (id(q), t.sexpr())
+                    if dk in self.qdone:
+                        continue
+                    self.qdone.add(dk)
                     inst = q.instance(t)
                     new += 1
                     if isinstance(inst, S.QGuard):
@@ -319,26 +487,54 @@ class Ctx:
                         self.qhyps.append((inst.q, g2))
                     else:
                         f = inst if guard is None else z3.Implies(guard, S._b(inst))
-                        if not isinstance(f, bool):
-                            self.pc.append(f)
-                            self.solver.add(f)
-                            goal_terms = list(goal_terms) + [f]
+                        self._add_instance(f, gen + 1)
+            for q in list(self.qhyps2):
+                if self.ninst >= self.MAXINST:
+                    break
+                tr = self.triggers2(q)
+                cands = []
+                if tr:
+                    for (arr, ci, cj) in tr:
+                        for key, ((u, w), gen) in list(self.reads2.get(arr.get_id(), {}).items()):
+                            cands.append((z3.simplify(u - ci), z3.simplify(w - cj), gen))
+                    for h in q.hints:
+                        cands.append((h[0], h[1], 0))
+                else:
+                    cands = [(a_, b_, gen) for ((a_, b_), gen) in self.pairs.values()]
+                for (a_, b_, gen) in cands:
+                    if gen > self.MAXGEN:
+                        continue
+                    dk = (id(q), a_.sexpr(), b_.sexpr())
+                    if dk in self.qdone:
+                        continue
+                    self.qdone.add(dk)
+                    new += 1
+                    self._add_instance(q.fn(a_, b_), gen + 1)
+            self.scan_pos = len(self.pc)
             if not new:
                 break
 
     def oblige(self, oid, goal, kind, where=''):
         skolems = []
+        if isinstance(goal, S.QForall2):
+            a, b = self._const('skr', z3.IntSort()), self._const('skc', z3.IntSort())
+            self.add_pair(a, b, 0)
+            self.add_idx(a, 0)
+            self.add_idx(b, 0)
+            skolems += [a, b]
+            goal = S._b(goal.fn(a, b))
         if isinstance(goal, S.QForall):
             guards = []
             while isinstance(goal, S.QForall):
                 k = self._const('sk', z3.IntSort())
                 skolems.append(k)
+                self.add_idx(k, 0)
                 guards.append(z3.And(goal.lo <= k, k < goal.hi))
                 goal = goal.fn(k)
             goal = z3.Implies(z3.And(*guards), S._b(goal))
         if isinstance(goal, z3.ExprRef):
             self.apply_axioms([goal])
-        if self.qhyps and isinstance(goal, z3.ExprRef):
+        if (self.qhyps or self.qhyps2) and isinstance(goal, z3.ExprRef):
             self.instantiate([goal] + skolems)
             self.apply_axioms([goal])
         if goal is True:
@@ -420,7 +616,18 @@ class ConcListView:
         i = z3.simplify(i)
         if z3.is_int_value(i):
             return to_spec(self._ctx, self._heap, items[i.as_long()])
-        raise Unsupported('symbolic index into a concrete list in a specification')
+        # symbolic index: describe the element as a pattern-list element (marker tests / text payload)
+        iseof = [i == k for k, x in enumerate(items) if isinstance(x, VClass) and x.name == 'EOF']
+        isto = [i == k for k, x in enumerate(items) if isinstance(x, VClass) and x.name == 'TIMEOUT']
+        texts = [(k, x) for k, x in enumerate(items) if hasattr(x, 't')]
+        val = None
+        if texts:
+            val = texts[-1][1].t
+            for k, x in reversed(texts[:-1]):
+                if x.t.sort() == val.sort():
+                    val = z3.If(i == k, x.t, val)
+        return S.Pat(z3.Or(*iseof) if iseof else z3.BoolVal(False),
+                     z3.Or(*isto) if isto else z3.BoolVal(False), val)
 
 
 def to_spec(ctx, heap, v):
@@ -442,6 +649,9 @@ def to_spec(ctx, heap, v):
             return SymListView(ctx, heap, v.oid)
         if h.kind == 'list':
             return ConcListView(ctx, heap, v.oid)
+        if h.kind == 'grid':
+            from .grid import GridView
+            return GridView(ctx, heap, v.oid)
         return ObjView(ctx, heap, v.oid)
     if isinstance(v, (VFunc, VModule)):
         return v
@@ -455,6 +665,55 @@ class NS:
 
     def __getattr__(self, name):
         raise AttributeError('spec view: no such name %s' % name)
+
+
+_K = [z3.Int('__qk%d' % i) for i in range(4)]
+_KEEP = []          # keeps signature ASTs alive: z3 ids are reused after garbage collection
+
+
+def qsig(f, depth=0):
+    """Structural signature of a quantified fact: its body at canonical constants (hash-consed AST id)."""
+    try:
+        if isinstance(f, S.QForall2):
+            b = f.fn(_K[2], _K[3])
+            _KEEP.append(b)
+            return ('q2', b.get_id()) if isinstance(b, z3.ExprRef) else None
+        if isinstance(f, S.QGuard):
+            inner = qsig(f.q, depth)
+            _KEEP.append(f.guard)
+            g = f.guard.get_id() if isinstance(f.guard, z3.ExprRef) else repr(f.guard)
+            return None if inner is None else ('g', g, inner)
+        if isinstance(f, S.QForall) and depth < 2:
+            inst = f.instance(_K[depth])
+            _KEEP.append(inst)
+            if isinstance(inst, S.QGuard):
+                inner = qsig(inst, depth + 1)
+                return None if inner is None else ('q1', inner)
+            return ('q1', inst.get_id()) if isinstance(inst, z3.ExprRef) else None
+    except Exception:
+        return None
+    return None
+
+
+def subterms(f):
+    stack, seen = [f], set()
+    while stack:
+        t = stack.pop()
+        tid = t.get_id()
+        if tid in seen:
+            continue
+        seen.add(tid)
+        yield t
+        if z3.is_app(t):
+            stack.extend(t.children())
+
+
+def mentions(t, k):
+    kid = k.get_id()
+    for x in subterms(t):
+        if x.get_id() == kid:
+            return True
+    return False
 
 
 def _find_axioms(t):
@@ -496,6 +755,26 @@ def collect_apps(f, names, out, seen):
             stack.extend(t.children())
 
 
+def collect_pairs(f, addp):
+    """(i, j) of every two-dimensional array read a[i, j] in f."""
+    if not isinstance(f, z3.ExprRef):
+        return
+    stack = [f]
+    seen = set()
+    n = 0
+    while stack and n < 6000:
+        t = stack.pop()
+        n += 1
+        tid = t.get_id()
+        if tid in seen:
+            continue
+        seen.add(tid)
+        if z3.is_app(t):
+            if t.decl().kind() == z3.Z3_OP_SELECT and t.num_args() == 3:
+                addp(t.arg(1), t.arg(2))
+            stack.extend(t.children())
+
+
 def collect_index_terms(f, add, depth=0):
     """Index-like integer terms of a formula: array read indices, substr offsets, seq.nth."""
     if not isinstance(f, z3.ExprRef):
@@ -514,6 +793,8 @@ def collect_index_terms(f, add, depth=0):
             k = t.decl().kind()
             if k == z3.Z3_OP_SELECT:
                 add(t.arg(1))
+                if t.num_args() == 3:
+                    add(t.arg(2))
             elif k == z3.Z3_OP_UNINTERPRETED and t.num_args() == 0 and t.sort() == z3.IntSort() and t.decl().name().startswith('sk'):
                 add(t)
             stack.extend(t.children())
